@@ -939,7 +939,6 @@ func sortStrings(s []string) {
 	}
 }
 
-
 // possibleSuccessReturns: the returns whose error result may be nil: the nil constant, the
 // result of a tail call to a function that can return nil, or a variable that is not known to be
 // non-nil at the return (not under its own `!= nil` test).
